@@ -15,6 +15,7 @@ import (
 
 	"visim/app"
 	"visim/core"
+	"visim/refvm"
 	"visim/sched"
 	"visim/simfs"
 	"visim/world"
@@ -39,6 +40,7 @@ func init() {
 		Stub:       append(append([]string{}, stubAll...), "OS filesystem (simfs)", "goroutine scheduler decisions (baton, drawn from the tape)"),
 		FaultKinds: []string{"schedule_switch", "restart"},
 		After:      c19RacePhase,
+		AfterFirst: true,
 	})
 }
 
@@ -107,6 +109,15 @@ func runC19(c *core.Ctx) *core.Outcome {
 	if err := a.Validate(); err != nil {
 		panic("generator produced ill-formed app: " + err.Error())
 	}
+	// templates unique to this world, so that content-keyed caches hidden in the library start cold
+	nonce := fmt.Sprintf("w%d", c.RunIndex)
+	for _, n := range a.Nodes {
+		for lg, tpl := range n.Tpl {
+			if i := strings.Index(tpl, "|"); i >= 0 {
+				n.Tpl[lg] = tpl[:i+1] + nonce + " " + tpl[i+1:]
+			}
+		}
+	}
 	nsess := []int{2, 2, 3, 3, 4, 6, 8, 16}[t.Int(8)]
 	bias := t.Chance(1, 2)
 	var ss []*c19Sess
@@ -114,44 +125,27 @@ func runC19(c *core.Ctx) *core.Outcome {
 		t.Begin("session")
 		s := &c19Sess{id: fmt.Sprintf("s%d", k), persisted: t.Chance(1, 2)}
 		nreq := t.Range(1, 6)
-		// solo run: inputs are generated online from the session's own position
-		a1, bufs1 := withCanary(a)
-		w := world.New(a1, cfg)
-		var disk *simfs.FS
-		if useFs {
-			disk = w.UseFs(false)
-		} else {
-			w.UseMem()
-		}
-		ws := w.NewSession(s.id, s.persisted)
+		// inputs are chosen by walking the reference model (no library code runs here), so that
+		// the concurrent phase is the first to touch the library with this application
+		m := refvm.New(a, refvm.Cfg{FlagCount: cfg.FlagCount, CacheSize: cfg.CacheSize, Language: cfg.Language})
 		for i := 0; i < nreq; i++ {
 			var in []byte
 			if i > 0 {
 				cur := ""
-				if pp, _ := ws.Position(); len(pp) > 0 {
-					cur = pp[len(pp)-1]
+				if len(m.Path) > 0 {
+					cur = m.Path[len(m.Path)-1]
 				}
 				in = genInput(t, a, cur, 1)
 			}
-			fresh := s.persisted && t.Chance(2, 3)
-			st := ws.Request(in, fresh)
 			s.inputs = append(s.inputs, in)
-			s.fresh = append(s.fresh, fresh)
-			s.solo = append(s.solo, *st)
-			if st.Panic != "" || (st.ExecErr != "" && !st.Cont) || (!st.Cont && !s.persisted) {
-				break
+			s.fresh = append(s.fresh, s.persisted && t.Chance(2, 3))
+			looksRefused := len(in) > 255 || (len(in) > 0 && !isAlnumPlus(in[0]))
+			if !looksRefused {
+				e := m.Request(in)
+				if !e.Skip && (!e.Cont || e.ExecErr) && !s.persisted {
+					break
+				}
 			}
-		}
-		if disk != nil {
-			disk.Unmount()
-		}
-		o.Counts["requests"] += len(s.solo)
-		o.Counts["sim_ticks"] += w.Rec.Ticks()
-		if msg := canaryIntact(a1, a, bufs1); msg != "" {
-			t.End()
-			o.Fail("shared-table-written", k, map[string]string{"phase": "solo"}, "serving session %s alone: %s", s.id, msg)
-			o.Scenario = scenario(w, nil)
-			return o
 		}
 		ss = append(ss, s)
 		t.End()
@@ -178,9 +172,12 @@ func runC19(c *core.Ctx) *core.Outcome {
 			w.Rec.OnEvent = func(_ int, kind string) {
 				yield(kind)
 			}
-			for i := range s.solo {
+			for i := range s.inputs {
 				st := ws.Request(s.inputs[i], s.fresh[i])
 				s.conc = append(s.conc, *st)
+				if st.Panic != "" || (st.ExecErr != "" && !st.Cont) || (!st.Cont && !s.persisted) {
+					break
+				}
 			}
 			w.Rec.OnEvent = nil
 		})
@@ -210,6 +207,35 @@ func runC19(c *core.Ctx) *core.Outcome {
 	}
 	o.States = append(o.States, h64(sb.String()))
 	o.TraceHash = h64(sb.String(), nsess)
+	// the same sessions served one after another, each in a fresh world over a fresh copy of the tables
+	for k, s := range ss {
+		a1, bufs1 := withCanary(a)
+		w := world.New(a1, cfg)
+		var disk *simfs.FS
+		if useFs {
+			disk = w.UseFs(false)
+		} else {
+			w.UseMem()
+		}
+		ws := w.NewSession(s.id, s.persisted)
+		for i := range s.inputs {
+			st := ws.Request(s.inputs[i], s.fresh[i])
+			s.solo = append(s.solo, *st)
+			if st.Panic != "" || (st.ExecErr != "" && !st.Cont) || (!st.Cont && !s.persisted) {
+				break
+			}
+		}
+		if disk != nil {
+			disk.Unmount()
+		}
+		o.Counts["requests"] += len(s.solo) + len(s.conc)
+		o.Counts["sim_ticks"] += w.Rec.Ticks()
+		if msg := canaryIntact(a1, a, bufs1); msg != "" {
+			o.Fail("shared-table-written", k, map[string]string{"phase": "solo"}, "serving session %s alone: %s", s.id, msg)
+			o.Scenario = scenario(w, nil)
+			return o
+		}
+	}
 	active := 0
 	for _, s := range ss {
 		if len(s.solo) >= 2 {
@@ -229,10 +255,12 @@ func runC19(c *core.Ctx) *core.Outcome {
 		return map[string]interface{}{"config": cfg, "app": a.Text(), "sessions": l, "schedule": sb.String(), "biased": bias}
 	}
 	for k, s := range ss {
+		if len(s.solo) != len(s.conc) {
+			o.Fail("interference", k, nil, "session %s served %d requests alone but %d concurrently", s.id, len(s.solo), len(s.conc))
+			o.Scenario = scen()
+			return o
+		}
 		for i := range s.solo {
-			if i >= len(s.conc) {
-				break
-			}
 			if stepSig(&s.solo[i]) != stepSig(&s.conc[i]) {
 				o.Fail("interference", k, nil, "session %s request %d input %s: served alone (cont=%v err=%q out=%s) != served concurrently with %d others (cont=%v err=%q panic=%q out=%s)",
 					s.id, i, short(string(s.inputs[i])), s.solo[i].Cont, s.solo[i].ExecErr, short(s.solo[i].Out), nsess-1, s.conc[i].Cont, s.conc[i].ExecErr, s.conc[i].Panic, short(s.conc[i].Out))
@@ -352,4 +380,8 @@ func binDir(verif string) string {
 		return b
 	}
 	return filepath.Join(verif, "bin")
+}
+
+func isAlnumPlus(b byte) bool {
+	return b == '+' || (b >= '0' && b <= '9') || (b >= 'a' && b <= 'z') || (b >= 'A' && b <= 'Z')
 }
